@@ -302,6 +302,7 @@ type World struct {
 	overrun          *overrunCase
 	fuzz             *fuzzCase
 	matrix           *matrixCase
+	reg              *regState
 	settingsCase     *settingsCase
 	openDeadline     time.Duration
 	nextOpenDeadline time.Duration
